@@ -376,20 +376,33 @@ def run_driver(pid, prop, workdir, tier, seed, n, out_path, inputs=None, only_in
         if only_inputs:
             env["VERIF_ONLY_INPUTS"] = "1"
     to = prop.get("go_timeout_s", {}).get(tier if tier in ("quick", "thorough") else "thorough", 600)
-    cmd = ["go", "test", "-overlay", ov, "-modfile", modfile, "-vet=off", "-count=1",
-           "-timeout", "%ds" % to, "-run", "^%s$" % prop["test"]] + prop.get("go_flags", []) + [prop["pkg"]]
-    rc, out, dt = sh(cmd, cwd=REPO, env=env, timeout=to + 120)
-    cases = []
-    if os.path.exists(out_path):
-        with open(out_path) as f:
-            for line in f:
-                line = line.strip()
-                if line:
-                    try:
-                        cases.append(json.loads(line))
-                    except ValueError:
-                        pass
-    return rc, out, dt, cases
+    pkgs = prop["pkg"] if isinstance(prop["pkg"], list) else [prop["pkg"]]
+    rc_all, out_all, dt_all, cases = 0, "", 0.0, []
+    procs = []
+    for i, pkg in enumerate(pkgs):
+        # several packages: one go test per package, run concurrently, ids made disjoint by VERIF_ID_BASE
+        op = out_path if len(pkgs) == 1 else "%s.%d" % (out_path, i)
+        penv = dict(env, VERIF_OUT=op, VERIF_ID_BASE=str(i * 1000000))
+        cmd = ["go", "test", "-overlay", ov, "-modfile", modfile, "-vet=off", "-count=1",
+               "-timeout", "%ds" % to, "-run", "^%s$" % prop["test"]] + prop.get("go_flags", []) + [pkg]
+        procs.append((op, subprocess.Popen(["timeout", str(to + 120)] + cmd, cwd=REPO, env=penv, stdout=subprocess.PIPE,
+                                           stderr=subprocess.STDOUT, text=True, errors="replace")))
+    t0 = time.time()
+    for op, p in procs:
+        out, _ = p.communicate()
+        rc_all = rc_all or p.returncode
+        out_all += out
+        if os.path.exists(op):
+            with open(op) as f:
+                for line in f:
+                    line = line.strip()
+                    if line:
+                        try:
+                            cases.append(json.loads(line))
+                        except ValueError:
+                            pass
+    dt_all = time.time() - t0
+    return rc_all, out_all, dt_all, cases
 
 
 # ---------------------------------------------------------------------------------------------
